@@ -270,6 +270,15 @@ def case(ctx, rnd, i):
             else:
                 alphabet, names = "inline", cw.INLINE_NAMES
             ast = gen.bounded_ast(rnd, names, rnd.randint(5, 14))
+            if rnd.random() < 0.12:
+                # a long flat sequence: more than ten automaton states
+                terms = []
+                for _t in range(rnd.randint(8, 14)):
+                    t_ = ("name", rnd.choice(names))
+                    q_ = rnd.random()
+                    terms.append(("star", t_) if q_ < 0.3 else ("opt", t_) if q_ < 0.45 else ("plus", t_) if q_ < 0.55 else t_)
+                ast = ("seq", tuple(terms))
+                ctx.count("long_sequence_expressions")
             check_expr(ctx, ast, alphabet, rnd, False)
         return
     i -= nr
